@@ -209,12 +209,32 @@ def make_to_number(timeout):
            datetime.timedelta(days=400, seconds=86399)]
     DTS = [datetime.datetime(1970, 1, 1, tzinfo=UTC), datetime.datetime(2001, 9, 9, 1, 46, 40, tzinfo=UTC),
            datetime.datetime(1969, 12, 31, 23, 59, 59, tzinfo=UTC), datetime.datetime(2020, 1, 1, 5, 30, tzinfo=datetime.timezone(datetime.timedelta(hours=5, minutes=30)))]
-    DS = [datetime.date(1970, 1, 1), datetime.date(1970, 1, 2), datetime.date(1969, 12, 31), datetime.date(2020, 2, 29)]
+    DS = [datetime.date(1970, 1, 1), datetime.date(1970, 1, 2), datetime.date(1969, 12, 31), datetime.date(2020, 2, 29),
+          datetime.date(1, 1, 1), datetime.date(9999, 12, 31), datetime.date(2021, 3, 14)]
+    ZONES = ["UTC", "America/New_York", "Asia/Tokyo", "Australia/Lord_Howe"]  # the process's local zone must not matter
 
-    def body(c0: int, c1: int):
-        ch = Chooser((c0, c1))
+    def body(c0: int, c1: int, c2: int):
+        import os
+        import time
+
+        ch = Chooser((c0, c1, c2))
         fam = ch.pick(3)
         with NoTracing():
+            zone = ch.choose(ZONES)
+            old = os.environ.get("TZ")
+            os.environ["TZ"] = zone
+            time.tzset()
+            try:
+                return inner(ch, fam)
+            finally:
+                if old is None:
+                    os.environ.pop("TZ", None)
+                else:
+                    os.environ["TZ"] = old
+                time.tzset()
+
+    def inner(ch, fam):
+        if True:
             if fam == 0:
                 v = TDS[ch.pick(len(TDS))]
                 exp = v.total_seconds()
@@ -233,7 +253,7 @@ def make_to_number(timeout):
                 return ("temporal_to_int", type(v).__name__, _d(v, r, exp))
         return None
 
-    return Cond("num/number<-temporal", [("c0", int), ("c1", int)], body, mode="E3", timeout=timeout)
+    return Cond("num/number<-temporal", [("c0", int), ("c1", int), ("c2", int)], body, mode="E3", timeout=timeout)
 
 
 # ------------------------------------------------------------------------------------------------ E3 text
@@ -284,6 +304,8 @@ def _text_cases():
         ("Level", M.Level, list(M.Level), lambda v: str(v.value), lambda v: "any"),
         ("Tag", M.Tag, list(M.Tag), lambda v: str(v.value), lambda v: "any"),
         ("TagNum", M.TagNum, list(M.TagNum), lambda v: str(v.value), lambda v: "json_like_value"),
+        ("Gain", M.Gain, list(M.Gain), lambda v: str(v.value), lambda v: "any"),  # a member whose value is falsy
+        ("Swap", M.Swap, list(M.Swap), lambda v: str(v.value), lambda v: "any"),  # values spelled like other members' names
         ("date", datetime.date, dates, lambda v: v.isoformat(), lambda v: "any"),
         ("datetime", datetime.datetime, dts, lambda v: v.isoformat(), lambda v: "any"),
         ("time", datetime.time, times, lambda v: v.isoformat(), lambda v: "utc" if v.utcoffset() == off0 else "nonutc"),
